@@ -80,7 +80,11 @@ func NewBlockReader(r io.Reader, opts ...Option) (*BlockReader, error) {
 		// dataOffset.
 		rs := internalio.ToByteReadSeeker(r)
 		if _, err := rs.Seek(int64(v2h.DataOffset)-PragmaSize-HeaderSize, io.SeekCurrent); err != nil {
-			return nil, err
+			// r may implement io.Seeker without being seekable (e.g. an *os.File over a
+			// pipe, such as stdin); a failed Seek consumed nothing, so skip by reading.
+			if _, cerr := io.CopyN(io.Discard, r, int64(v2h.DataOffset)-PragmaSize-HeaderSize); cerr != nil {
+				return nil, err
+			}
 		}
 		br.v1offset = uint64(v2h.DataOffset)
 		br.offset = br.v1offset
